@@ -93,8 +93,13 @@ def split (loc : Seq → List Reg) (circular : Bool) (s : Seq) : List Seq :=
     if rr.length = 1 ∧ circular then [s.rotate (-(r0.head))]
     else
       let heads := sortAscU (rr.map cutOf)
-      let splits := if circular then heads.getLast?.toList ++ heads else (0 : Int) :: heads ++ [s.len]
-      pieces s splits
+      if circular ∧ heads.length = 1 then
+        -- several regions sharing one cut position: the circle is opened there (repair 78dc8d4:
+        -- `if top == gts.Circular && len(heads) == 1 { seq = gts.Rotate(seq, -heads[0]) … }`)
+        [s.rotate (-(heads.headD 0))]
+      else
+        let splits := if circular then heads.getLast?.toList ++ heads else (0 : Int) :: heads ++ [s.len]
+        pieces s splits
 
 /-- rotate.go scan loop: `if len(rr) > 0 { seq = gts.Rotate(seq, -rr[0].Head()) }` -/
 def rotate (loc : Seq → List Reg) (s : Seq) : Seq :=
